@@ -42,7 +42,7 @@ ASSUMPTIONS = [
     "means R = Rx(a) Ry(b) Rz(c) as the property text says (verified against the code and the suite's example)",
     "tolerance 5e-6*max(1,|p| of operands and result) for everything (the property's number); the model re-synchronises "
     "to the observed object after each verified step",
-    "matrix-side results whose rotation lies within 2e-5 of a half turn are excluded and counted (log inaccuracy there is "
+    "matrix-side results whose rotation lies within 1e-4 of a half turn are excluded and counted (log inaccuracy there is "
     "the open known finding C01-near-pi-log); histories whose rotation vector grows beyond 1e6 rad are outside the domain",
     "only C-contiguous float64 arrays (fresh copies) are handed to the library; tm*matrix, T() and ndarray@tm are not in "
     "the alphabet",
@@ -52,7 +52,7 @@ SHARDS = {"quick": 4, "thorough": 16}
 PI = math.pi
 TWO_PI = 2 * math.pi
 TOL = 5e-6
-NEAR_PI = 2e-5
+NEAR_PI = 1e-4          # derived matrices are orthonormal to ~1e-14 only and the logarithm amplifies that by 1/(pi-angle)^2: 1.4e-5 measured at pi-2.2e-5 (sweep #13)
 WMAX = 1e6
 
 _lib = {}
@@ -247,7 +247,7 @@ def _expect_mat(S, o, T, ps, what):
     """matrix-side write: the object must hold pose T; the logarithm branch is not prescribed."""
     T = np.asarray(T, dtype=float)
     if _near_pi(T[:3, :3]):
-        raise Skip("matrix-side result within 2e-5 of a half turn (C01-near-pi-log)")
+        raise Skip("matrix-side result within 1e-4 of a half turn (C01-near-pi-log)")
     TM, TAA = _observe(o.t, what)
     s = max([1.0, _pn(T[:3, 3])] + list(ps))
     d = np.abs(TM[:3, :3] - T[:3, :3]).max()
@@ -565,7 +565,7 @@ def _light(S, o, exp, what):
         S.vec_writes += 1
     elif kind == "mat":
         if _near_pi(np.asarray(exp[1], dtype=float)[:3, :3]):
-            raise Skip("matrix-side result within 2e-5 of a half turn (C01-near-pi-log)")
+            raise Skip("matrix-side result within 1e-4 of a half turn (C01-near-pi-log)")
         S.mat_writes += 1
     elif kind == "amod":
         if float(np.abs(o.v[3:]).max()) > TWO_PI:
